@@ -3,7 +3,7 @@
 Tie: translator (Generated/EcdsaInt.lean) + correspondence of the signing entry points of Model/Ecdsa.lean
 (sign_digest, sign, sign_digest_deterministic with its retry loop, sign_deterministic) and of the verification of
 what they return.  Search: the property read literally on the real code -- sign, then verify must return True."""
-import random
+import random, hashlib
 from lib import common
 from lib.common import hx
 from props import _ecdsa_common as E
@@ -413,6 +413,31 @@ def correspond(ctx):
     for k in c:
         c[k].run()
         c[k].mirror_ref().run()
+    # --- the point object of a LOADED verifying key (what C01r.vkPoint / OnCurve.loadedKeyPoint model): class and stored fields ----
+    lk = ParCorr(ctx, "loaded_key_point")
+    rng = ctx.rng
+
+    def raw_fields(P):
+        from ecdsa.ellipticcurve import PointJacobi, INFINITY
+        if P is INFINITY:
+            return "inf"
+        if isinstance(P, PointJacobi):
+            X, Y, Z = P._PointJacobi__coords
+            o = P._PointJacobi__order
+            return "J,%d,%d,%d,%s,%d" % (X, Y, Z, "N" if o is None else "%d" % o, 1 if P._PointJacobi__generator else 0)
+        return "A,%d,%d,%s" % (P.x(), P.y(), "N" if P.order() is None else "%d" % P.order())
+    todo = [(cv, E.token(cv), VK_FORMATS) for cv in E.named_curves()]
+    todo += [(t.curve(m), t.token(m), [f for f in VK_STRING_FORMATS if f != "string:compressed"]) for t in E.get_fixed_toys()[:2] for m in ("j", "a")]
+    for cv, tok, fmts in todo:
+        n = int(cv.order)
+        for d in (1, n - 1, rng.randrange(1, n)):
+            vk = E.signing_key(cv, d).verifying_key
+            Q = vk.pubkey.point
+            for fmt in fmts:
+                lk.add("ecdsa_loaded_key_point %s %d %d" % (tok, Q.x(), Q.y()),
+                       lambda vk=vk, fmt=fmt, cv=cv: raw_fields(reload_vk(vk, fmt, cv, hashlib.sha1).pubkey.point),
+                       "loaded via " + fmt, 1e-5, key=fmt)
+    lk.run()
 
 
 def search(ctx):
